@@ -21,6 +21,9 @@ pub struct PacketConn<RW: Read + Write> {
     // write variables
     to_write: Vec<u8>,
     seq: u8,
+    // the last packet sent was a maximal one, so the message must be terminated by one more
+    // packet (an empty one if there is no more payload)
+    continued: bool,
 }
 
 impl<W: Read + Write> Write for PacketConn<W> {
@@ -29,10 +32,11 @@ impl<W: Read + Write> Write for PacketConn<W> {
         #[cfg(feature = "verif-hooks")]
         #[allow(non_snake_case)]
         let U24_MAX = crate::verif::packet_limit();
-        let left = min(buf.len(), U24_MAX - self.to_write.len());
+        // to_write holds the 4-byte header followed by up to U24_MAX bytes of payload
+        let left = min(buf.len(), U24_MAX + 4 - self.to_write.len());
         self.to_write.extend(&buf[..left]);
 
-        if self.to_write.len() == U24_MAX {
+        if self.to_write.len() == U24_MAX + 4 {
             self.end_packet()?;
         }
         Ok(left)
@@ -56,6 +60,7 @@ impl<RW: Read + Write> PacketConn<RW> {
 
             to_write: vec![0, 0, 0, 0],
             seq: 0,
+            continued: false,
             rw,
         }
     }
@@ -64,7 +69,8 @@ impl<RW: Read + Write> PacketConn<RW> {
 impl<W: Read + Write> PacketConn<W> {
     fn maybe_end_packet(&mut self) -> io::Result<()> {
         let len = self.to_write.len() - 4;
-        if len != 0 {
+        if len != 0 || self.continued {
+            self.continued = len == U24_MAX;
             LittleEndian::write_u24(&mut self.to_write[0..3], len as u32);
             self.to_write[3] = self.seq;
             self.seq = self.seq.wrapping_add(1);
